@@ -1012,3 +1012,70 @@ def derived_vars(fn, seeds):
                     out.add(root)
                     changed = True
     return out
+
+
+# ---------- running a path automaton through helpers ----------
+
+def inlined_step(prog, step, want, depth=3):
+    """Wrap an automaton step so that a call to a program-defined function g with want(g) is replaced by running the automaton
+    through g's body (its non-throwing exit states become the states after the call).  Bounded depth; recursion is not followed."""
+    level = [0]
+    active = []
+
+    def step2(st, ev):
+        if ev["k"] == "call" and level[0] < depth:
+            gs = [g for g in prog.resolve_call(ev) if g.blocks and g.id not in active and want(g)]
+            if gs:
+                outs = []
+                level[0] += 1
+                try:
+                    for g in gs:
+                        active.append(g.id)
+                        try:
+                            exits, _ = cfg.run_automaton(g, st, step2)
+                        finally:
+                            active.pop()
+                        outs += [x.state for x in exits if x.kind != "throw"]
+                finally:
+                    level[0] -= 1
+                return list(dict.fromkeys(outs))
+        return step(st, ev)
+    return step2
+
+
+def completion_callback_pred(prog, conn_prefix):
+    """predicate: the event runs the client's completion callback (RequestEntry::onDone): the member itself, a local copy of it, a
+    std::function parameter of a Connection helper that is handed one, or a call to such a helper with the callback as argument"""
+    def copies(fn_):
+        return {d["var"] for d in fn_.events("decl") if d.get("var") and strip_tmpl((d.get("init") or {}).get("f") or "").endswith("RequestEntry::onDone")}
+
+    def invoked_params(fn_):
+        names = {p_["name"] for p_ in fn_.params}
+        return {(e.get("recv") or {}).get("v") for e in fn_.events("call") if e.base_callee() == "std::function::operator()" and (e.get("recv") or {}).get("v") in names}
+
+    def handed_callback(fn_, pname):
+        idx = [i for i, p_ in enumerate(fn_.params) if p_["name"] == pname]
+        sites = prog.call_sites(fn_.base)
+        return bool(idx) and bool(sites) and all(
+            len(s.get("args", [])) > idx[0] and (s["args"][idx[0]].get("v") in copies(s.func) or strip_tmpl(s["args"][idx[0]].get("f") or "").endswith("RequestEntry::onDone"))
+            for s in sites)
+
+    def direct(ev):
+        if ev["k"] != "call" or ev.base_callee() != "std::function::operator()":
+            return False
+        rv = ev.get("recv") or {}
+        if strip_tmpl(rv.get("f") or "").endswith("RequestEntry::onDone") or rv.get("v") in copies(ev.func):
+            return True
+        f = ev.func
+        return (not isinstance(f, str)) and f.base.startswith(conn_prefix) and rv.get("v") in invoked_params(f) and handed_callback(f, rv.get("v"))
+
+    def via_helper(ev):
+        if ev["k"] != "call" or not (ev.get("callee") or "").startswith(conn_prefix):
+            return False
+        for g_ in prog.resolve_call(ev):
+            inv = invoked_params(g_)
+            for i, a in enumerate(ev.get("args", [])):
+                if i < len(g_.params) and g_.params[i]["name"] in inv and (a.get("v") in copies(ev.func) or strip_tmpl(a.get("f") or "").endswith("RequestEntry::onDone")):
+                    return True
+        return False
+    return direct, via_helper
